@@ -13,7 +13,7 @@ let int_of_n = function N0 -> 0 | Npos p -> int_of_pos p
 
 let () =
   for i = 0 to 255 do
-    if int_of_n (to_N (byte_of_int i)) <> i then (prerr_endline "drv: byte mapping broken"; exit 3)
+    if int_of_n (drv_byte_code (byte_of_int i)) <> i then (prerr_endline "drv: byte mapping broken"; exit 3)
   done
 
 let hexval c = match c with
